@@ -7,7 +7,9 @@
  *   hist  <size> <resize> <ve> <rve|-> <cve|-> <script>   -> ok <tok>*     script: op,op,…   op: c.<hash>.<val> | D | R
  *   dict  <size> <mask> <script>                          -> ok <tok>*     script: i.<hex>.<len>.<alias> | z.<hex> |
  *                                                                                   r.<hex> | d.<hex>.<alias> | D
- * Every table is freed at the end of its request and the LeakSanitizer is asked (`LEAK` token if it reports). */
+ * Every table is freed at the end of its request; the LeakSanitizer is asked after every VP_LEAK_EVERY-th history
+ * (environment, default 64; the check module re-runs a window with 1 to name the leaking history) and at exit
+ * (`LEAK` token if it reports). */
 #define _GNU_SOURCE
 #include <stdint.h>
 #include <stdlib.h>
@@ -34,6 +36,14 @@ vp_dict_hash(const char *key, size_t len)
 #undef lyht_hash
 
 #include "proto.h"
+
+static unsigned long vp_nreq, vp_leak_every = 64;
+
+static int
+vp_leak_now(void)
+{
+    return (++vp_nreq % vp_leak_every == 0) && VP_LEAKCHECK();
+}
 
 /* ---- generic table over uint32_t values ---------------------------------------------------------------------- */
 static ly_bool eq0(void *a, void *b, ly_bool mod, void *d) { (void)mod; (void)d; return *(uint32_t *)a == *(uint32_t *)b; }
@@ -170,7 +180,7 @@ do_hist(struct vp_req *r)
         printf(":%u:%u", ht->size, ht->used);
     }
     lyht_free(ht, NULL);
-    if (VP_LEAKCHECK()) printf(" LEAK");
+    if (vp_leak_now()) printf(" LEAK");
     vp_end();
 }
 
@@ -351,7 +361,7 @@ do_dict(struct vp_req *r)
     held = NULL;
     nheld = 0;
     vp_mask = 0xFFFFFFFFu;
-    if (VP_LEAKCHECK()) printf(" LEAK");
+    if (vp_leak_now()) printf(" LEAK");
     vp_end();
 }
 
@@ -361,6 +371,9 @@ main(void)
     struct vp_req r = {0};
 
     ly_log_options(0);
+    if (getenv("VP_LEAK_EVERY") && atol(getenv("VP_LEAK_EVERY")) > 0) {
+        vp_leak_every = atol(getenv("VP_LEAK_EVERY"));
+    }
     while (vp_next(&r)) {
         if (r.ntok < 3) { vp_reply(r.ntok ? r.tok[0] : "?", "err BadLine"); continue; }
         if (strcmp(r.tok[1], "ht")) { vp_reply(r.tok[0], "err NoSuchComponent"); continue; }
